@@ -21,7 +21,7 @@ type PathState struct {
 	block   *ssa.BasicBlock
 	idx     int
 	tracked map[ssa.Value]bool
-	marked  map[ssa.Value]bool // like tracked (flows through phis on the path) but says nothing about nil-ness
+	marked  map[ssa.Value]bool     // like tracked (flows through phis on the path) but says nothing about nil-ness
 	alias   map[*ssa.Phi]ssa.Value // boolean phis: the (non-constant) operand selected on this path
 	consts  map[ssa.Value]*ssa.Const
 	parent  *PathState
@@ -326,24 +326,24 @@ func (s *PathState) sig() string {
 
 // PathQ is a path query: is there a CFG path from a start point to a sink that avoids every cut?
 type PathQ struct {
-	Fn         *ssa.Function
-	StartEntry bool
-	StartAfter []ssa.Instruction        // start just after these instructions
-	StartEdges []Edge                   // start at the head of Edge.To, having come from Edge.From
-	Tracked    []ssa.Value              // values bound to the tracked object at the start
-	Consts     map[ssa.Value]*ssa.Const // values (e.g. a bool parameter) fixed to a constant for this query
-	Sink       func(in ssa.Instruction, st *PathState) bool
-	SinkEdge   func(e Edge, st *PathState) bool
-	Cut        func(in ssa.Instruction, st *PathState) bool
-	CutEdge    func(e Edge, st *PathState) bool
-	Marked     []ssa.Value // values whose flow through phis is followed without any nil-ness assumption (PathState.Marked)
-	NoFold     bool        // disable branch folding on the tracked value
-	NoPrune    bool        // keep facts about dead values (debugging)
-	FullOnly   bool        // skip the light first pass
-	AllAlias   bool        // remember the operand every phi (not only boolean and error phis) took on the path, for Selected
+	Fn                   *ssa.Function
+	StartEntry           bool
+	StartAfter           []ssa.Instruction        // start just after these instructions
+	StartEdges           []Edge                   // start at the head of Edge.To, having come from Edge.From
+	Tracked              []ssa.Value              // values bound to the tracked object at the start
+	Consts               map[ssa.Value]*ssa.Const // values (e.g. a bool parameter) fixed to a constant for this query
+	Sink                 func(in ssa.Instruction, st *PathState) bool
+	SinkEdge             func(e Edge, st *PathState) bool
+	Cut                  func(in ssa.Instruction, st *PathState) bool
+	CutEdge              func(e Edge, st *PathState) bool
+	Marked               []ssa.Value // values whose flow through phis is followed without any nil-ness assumption (PathState.Marked)
+	NoFold               bool        // disable branch folding on the tracked value
+	NoPrune              bool        // keep facts about dead values (debugging)
+	FullOnly             bool        // skip the light first pass
+	AllAlias             bool        // remember the operand every phi (not only boolean and error phis) took on the path, for Selected
 	light, factDependent bool
 	initial              map[ssa.Value]bool // the query's own Tracked/Marked/Consts keys: identities, never pruned
-	AllConsts  bool        // record the constant selected for every phi (not only branch-relevant ones)
+	AllConsts            bool               // record the constant selected for every phi (not only branch-relevant ones)
 	// TrackedNonNil: tracked values are known non-nil / non-empty (custody rules). Default true when Tracked != nil.
 }
 
